@@ -15,7 +15,14 @@ EXHAUST_SIZE = 3        # programs up to this many tasks are exhausted
 
 
 def scenarios(tier):
-    P = wfgen.curated()
+    P = dict(wfgen.curated())
+    # joins behind joins, joins whose inbound routes never fire
+    J = wfgen.join_shapes()
+    for k in ('nested_inner_never_triggered', 'nested_inner_triggered',
+              'jall_chain_inbound', 'jall_impossible_route',
+              'two_joins_same_inbound'):
+        if k in J:
+            P[k] = J[k]
     jobs = []
     quick = tier == 'quick'
     for name, prog in P.items():
